@@ -63,6 +63,7 @@ def math_range(ln, lo, hi):
 
 def parse_sink(tok):
     if tok in ("drop", "forget", "info"): return (tok,)
+    if tok.startswith("swapr") and tok[5:].isdigit(): return ("swap", int(tok[5:]))      # erased right operand: same meaning
     for p in ("dc", "push", "swap"):
         if tok.startswith(p) and tok[len(p):].isdigit(): return (p, int(tok[len(p):]))
     for p in ("ins", "lazy"):
@@ -349,6 +350,7 @@ class Shadow:
             else: self.sink_value(sub, v, x, d.ty, sink, handle=False)
             if sub.res != "ok": raise Unknown("sink panicked inside a range iterator")
             tok = "N" if (sub.out and sub.out[0] == "N") else x
+            if sink[0] == "info": tok = "%s/t%d/s%d" % (x, d.ty, self.size)
             ex.out.append("%s:%d" % (tok, b - a))
             ex.drops += sub.drops; ex.clones += sub.clones; ex.held_add += sub.held_add; ex.leak += sub.leak
         ex.drops += vis[a:b]
